@@ -108,6 +108,7 @@ fn run_case(name: &str, npingers: usize, progs: Vec<Vec<String>>, loop_ops: Vec<
             StepResult::Done => "done".into(),
             StepResult::Blocked => "blocked".into(),
             StepResult::Skip => "skip".into(),
+            StepResult::Panicked => "panic".into(),
         };
         writeln!(out, "step {} {} {}", t, label, snapshot(&shared)).unwrap();
     }
@@ -115,7 +116,7 @@ fn run_case(name: &str, npingers: usize, progs: Vec<Vec<String>>, loop_ops: Vec<
     for t in (1..=npingers).chain(std::iter::once(0)) {
         loop {
             match sched.step(t) {
-                StepResult::Done | StepResult::Skip => break,
+                StepResult::Done | StepResult::Skip | StepResult::Panicked => break,
                 _ => {}
             }
         }
